@@ -413,10 +413,424 @@ def correspondence(ctx):
                          "did not predict, or the step is not a fixed point)")
         elif len(ctx.samples) < 6 and stream == "ksingle":
             ctx.sample({"input": inp, "impl": iv, "model": mv})
+    # --- public entry points as a whole
+    _corr_api(ctx, stats, drv.ask)
+    _corr_kapi(ctx, stats, drv.ask)
     ctx.require_branches(["r:zero", "r:interior", "r:equals-n", "n:equals-r", "n:no-doubling", "n:doubling",
-                          "c:interior", "rat-instance", "k:ksingle", "k:kdouble", "k:newton"])
+                          "c:interior", "rat-instance", "k:ksingle", "k:kdouble", "k:newton",
+                          "api:bad-which", "api:type-error", "api:shape-error", "api:solver-error", "api:broadcast-2d",
+                          "api:c:scalar", "api:r:scalar", "api:n:scalar", "api:p:scalar",
+                          "api:c:array", "api:r:array", "api:n:array", "api:p:array",
+                          "k:ksingle-array", "k:kdouble-array", "k:getr-loop", "k:broadcast-2d", "k:shape-error",
+                          "k:getr-loops-2-3", "k:getr-loops-4+"])
     ctx.extra["not_exercised"] = ("n:value-error needs an answer above r*2^31 (p within 1e-9 of 1): theorem n_total "
                                   "characterises it, the exact model cannot be evaluated there")
+
+
+# ---------------------------------------------------------------------------------------
+# public entry points: dispatch, absent arguments, broadcasting, packaging (Model/OrderStatsApi.lean, KFactorApi.lean)
+
+PQ_ITERS = 40          # halvings of the model of the 'p' root finder: centre within 2^-41 of the root
+_SHAPES = [(), (), (), (1,), (2,), (3,), (2, 1), (1, 3), (2, 3), (3, 1), (1, 1), (2, 1, 3), (1, 2, 1), (0,), (2, 0), (0, 3)]
+_BADWHICH = ["x", "", "C", "c ", " r", "pp", "cr", "N", "which", "rank"]
+
+
+def _compatible_shapes(rng, k):
+    """k shapes that broadcast together (mostly), built from one target shape"""
+    tgt = rng.choice([(), (2,), (3,), (2, 3), (3, 2), (2, 1, 3), (4,), (2, 2), (0,), (2, 0), (0, 3), (1,), (1, 1)])
+    out = []
+    for _ in range(k):
+        u = rng.random()
+        if u < 0.3:
+            out.append(())
+        else:
+            cut = rng.randint(0, len(tgt))
+            sh = tuple(d if rng.random() < 0.6 else 1 for d in tgt[cut:])
+            out.append(sh)
+    if rng.random() < 0.12:  # make them incompatible
+        i = rng.randrange(k)
+        out[i] = rng.choice([(5,), (2, 5), (5, 1, 1), (7,)])
+    return out
+
+
+def _pack(rng, arr, kind):
+    """hand a value to the implementation the way callers do: python scalars, lists, tuples, arrays of several dtypes and
+    memory layouts; the array handed over is kept so that `unchanged` can be checked"""
+    a = np.asarray(arr)
+    if a.ndim == 0:
+        v = a[()]
+        u = rng.random()
+        if u < 0.5:
+            return float(v) if kind == "f" else int(v)
+        if u < 0.7:
+            return np.float64(v) if kind == "f" else np.int64(v)
+        if u < 0.8 and kind == "i":
+            return float(v)
+        return np.array(v)
+    u = rng.random()
+    if u < 0.3 and (a.size or a.ndim == 1):   # (a nested list cannot spell an empty array of rank >= 2)
+        return a.tolist()
+    if u < 0.4 and a.ndim == 1:
+        return tuple(a.tolist())
+    if kind == "i":
+        # integer arguments as python ints or arrays of at least 32 bits (ASSUMPTIONS): with 8/16-bit arrays the code's own
+        # arithmetic is done in that width (`b = 2 * a` overflows, np.sqrt(int8) is a float16): the oracle's `dtype` items
+        a = a.astype(rng.choice([np.int64, np.int32, np.float64]))
+    if u < 0.6:
+        return np.asfortranarray(a)
+    if u < 0.75 and a.size:
+        big = np.zeros(tuple(2 * d for d in a.shape), dtype=a.dtype)   # a non-contiguous view
+        sl = tuple(slice(None, None, 2) for _ in a.shape)
+        big[sl] = a
+        return big[sl]
+    return a.copy()
+
+
+def _nd_str(arr, fmt):
+    if arr is None:
+        return "-"
+    a = np.asarray(arr, dtype=object) if not isinstance(arr, np.ndarray) else arr
+    return "%s:%s" % (",".join(str(d) for d in a.shape), ",".join(fmt(x) for x in a.ravel(order="C")))
+
+
+def _gen_api(ctx, count):
+    """(which, {name: None | ndarray of strings (p, c) / ints (n, r)})"""
+    rng = ctx.rng
+    out = []
+    # the whole decision table: every `which` (valid and not) x every subset of absent arguments, scalars
+    for w in ["c", "r", "n", "p"] + _BADWHICH[:4]:
+        for mask in range(16):
+            a = {"p": "0.9", "c": "0.9", "n": 30, "r": 2}
+            args = {k: (None if mask >> i & 1 else np.array(a[k], dtype=object)) for i, k in enumerate("pcnr")}
+            out.append((w, args))
+    for _ in range(count):
+        w = rng.choice("crnp") if rng.random() < 0.93 else rng.choice(_BADWHICH)
+        reads = {"c": "rnp", "r": "cnp", "n": "crp", "p": "crn"}.get(w, "pcn")
+        shapes = dict(zip(reads, _compatible_shapes(rng, 3)))
+        args = {}
+        for k in "pcnr":
+            if k not in shapes:
+                # the quantity asked for: usually absent, sometimes given (it is ignored)
+                if rng.random() < 0.75:
+                    args[k] = None
+                    continue
+                shapes[k] = rng.choice(_SHAPES)
+            elif rng.random() < 0.06:
+                args[k] = None
+                continue
+            sh = shapes[k]
+            size = int(np.prod(sh)) if sh else 1
+            if k == "p":
+                vals = [rng.choice(["0.5", "0.6", "0.75", "0.8", "0.9", "0.95", "0.25", "0.4"]) if rng.random() < 0.7
+                        else "0.%02d" % rng.randint(5, 95) for _ in range(size)]
+            elif k == "c":
+                vals = [rng.choice(["0.5", "0.9", "0.75", "0.2", "0.1", "0.95", "0.6"]) if rng.random() < 0.7
+                        else "0.%02d" % rng.randint(3, 97) for _ in range(size)]
+            elif k == "n":
+                vals = [rng.randint(1, 12) if rng.random() < 0.4 else rng.randint(1, 40) for _ in range(size)]
+            else:
+                vals = [rng.randint(1, 4) if rng.random() < 0.8 else rng.randint(0, 9) for _ in range(size)]
+            arr = np.empty(sh, dtype=object)
+            arr.ravel()[...] = vals  # C order
+            if sh:
+                arr = np.array(vals, dtype=object).reshape(sh)
+            else:
+                arr = np.array(vals[0], dtype=object)
+            args[k] = arr
+        out.append((w, args))
+    return out
+
+
+def _api_request(w, args):
+    wtok = "~" if w == "" else w.replace(" ", "_")
+    fq = lambda x: _fs(Fraction(str(x)))
+    return "api %d %s p=%s c=%s n=%s r=%s" % (PQ_ITERS, wtok, _nd_str(args["p"], fq), _nd_str(args["c"], fq),
+                                             _nd_str(args["n"], lambda x: str(int(x))), _nd_str(args["r"], lambda x: str(int(x))))
+
+
+def _classify_exc(e):
+    msg = str(e)
+    if isinstance(e, TypeError):
+        return "err type-error"
+    if isinstance(e, ValueError):
+        if "invalid `which`" in msg:
+            return "err bad-which"
+        if "broadcast" in msg or "shape mismatch" in msg:
+            return "err shape-error"
+        if "different signs" in msg:
+            return "err solver-error"
+    return "err other:%s:%s" % (type(e).__name__, msg[:60])
+
+
+def _api_impl(stats, rng, w, args):
+    """call the implementation; returns (classification, value, the arrays handed over with their copies)"""
+    kw, held = {}, []
+    for k in "pcnr":
+        if args[k] is None:
+            if rng.random() < 0.5:
+                kw[k] = None       # explicit None and omitted are the same thing
+            continue
+        a = args[k]
+        num = np.array([float(x) for x in a.ravel()]).reshape(a.shape) if k in "pc" else np.array([int(x) for x in a.ravel()], dtype=np.int64).reshape(a.shape)
+        v = _pack(rng, num, "f" if k in "pc" else "i")
+        kw[k] = v
+        if isinstance(v, np.ndarray):
+            held.append((k, v, v.copy()))
+    try:
+        with warnings.catch_warnings():
+            warnings.simplefilter("ignore")
+            res = stats.order_stats(w, **kw)
+    except Exception as e:  # noqa: BLE001 - every exception kind is part of the modelled behaviour
+        return _classify_exc(e), None, held
+    if type(res) is int:
+        return "pyint", res, held
+    if isinstance(res, np.ndarray):
+        return ("intarr" if res.dtype.kind in "iu" else "floatarr" if res.dtype.kind == "f" else "arr-" + res.dtype.str), res, held
+    if isinstance(res, np.integer):
+        return "npint", int(res), held
+    if isinstance(res, np.floating):
+        return "npfloat", float(res), held
+    return "other:" + type(res).__name__, res, held
+
+
+def _parse_api_reply(line):
+    kind, _, rest = line.partition(" ")
+    if kind == "err":
+        return line, None
+    if kind in ("pyint", "npint"):
+        return kind, int(rest)
+    if kind == "npfloat":
+        return kind, float(Fraction(rest))
+    dims, _, vals = rest.partition(":")
+    shape = tuple(int(d) for d in dims.split(",") if d)
+    items = [v for v in vals.split(",") if v]
+    if kind == "intarr":
+        return kind, np.array([int(v) for v in items], dtype=np.int64).reshape(shape)
+    return kind, np.array([float(Fraction(v)) for v in items], dtype=float).reshape(shape)
+
+
+def _api_element_tie(w, args, idx_val_pairs):
+    """is one of the differing integer elements a float tie? (args broadcast elementwise)"""
+    reads = {"r": "cnp", "n": "crp"}[w]
+    arrs = np.broadcast_arrays(*[args[k] for k in reads])
+    for flat, model in idx_val_pairs:
+        el = {k: arrs[i].ravel()[flat] for i, k in enumerate(reads)}
+        case = (w, str(el["p"]), str(el["c"]), int(el["n"]) if "n" in el else None, int(el["r"]) if "r" in el else None)
+        if not _is_tie(case, int(model)):
+            return False
+    return True
+
+
+def _corr_api(ctx, stats, drv_lines):
+    """stream `api`: order_stats as a whole (dispatch, None, broadcasting order and shape, result packaging) — exact"""
+    cases = _gen_api(ctx, ctx.pick(420, 1600))
+    rep = drv_lines([_api_request(w, a) for w, a in cases])
+    for (w, args), line in zip(cases, rep):
+        kind_i, val_i, held = _api_impl(stats, ctx.rng, w, args)
+        kind_m, val_m = _parse_api_reply(line)
+        absent = "".join(k for k in "pcnr" if args[k] is None)
+        inp = {"which": w, "absent": absent,
+               **{k: (None if args[k] is None else {"shape": list(args[k].shape), "values": [str(x) for x in args[k].ravel()]}) for k in "pcnr"}}
+        br = ("api:" + kind_m.replace("err ", "")) if kind_m.startswith("err") else "api:%s:%s" % (w, "scalar" if kind_m in ("pyint", "npint", "npfloat") else "array")
+        nontriv = not kind_m.startswith("err") and (np.size(val_m) > 0)
+        ctx.case(("api", w, repr(inp)), nontrivial=nontriv, branch=br)
+        if kind_m in ("intarr", "floatarr") and val_m.ndim >= 2 and val_m.size > 1:
+            ctx.count("api:broadcast-2d")
+        for k, v, keep in held:
+            if v.tobytes() != keep.tobytes() or v.shape != keep.shape:
+                ctx.disagree("api-argument-modified", inp, "argument %s changed by the call" % k, "unchanged (arguments_unchanged)")
+        if kind_i != kind_m:
+            ctx.disagree("api-kind", inp, kind_i, kind_m)
+            continue
+        if val_m is None:
+            continue
+        if kind_m in ("intarr", "floatarr") and np.shape(val_i) != np.shape(val_m):
+            ctx.disagree("api-shape", inp, list(np.shape(val_i)), list(np.shape(val_m)))
+            continue
+        vi, vm = np.asarray(val_i), np.asarray(val_m)
+        if kind_m in ("pyint", "npint", "intarr"):
+            if not np.array_equal(vi, vm):
+                bad = [(int(f), int(vm.ravel()[f])) for f in np.flatnonzero(vi.ravel() != vm.ravel())]
+                if w in ("r", "n") and all(abs(int(vi.ravel()[f]) - m) == 1 for f, m in bad) and _api_element_tie(w, args, bad):
+                    ctx.skip("tie |confidence - c| < 1e-9")
+                    continue
+                ctx.disagree("api-int-values", inp, vi.tolist(), vm.tolist())
+        else:
+            tol = 1e-10 if w == "c" else 1e-9
+            if not np.all(np.abs(vi - vm) <= tol):
+                ctx.disagree("api-float-values", inp, vi.tolist(), vm.tolist())
+
+
+def _kf_grid(ctx, count):
+    """(p, c, n) float/int arrays with broadcast-compatible shapes for the k-factor entry points"""
+    rng = ctx.rng
+    out = []
+    for _ in range(count):
+        shp = _compatible_shapes(rng, 3)
+        arrs = []
+        for k, sh in zip("pcn", shp):
+            size = int(np.prod(sh)) if sh else 1
+            if k == "p":
+                vals = [rng.choice([0.5, 0.75, 0.9, 0.95, 0.99, 0.999, 0.6]) if rng.random() < 0.7 else round(rng.uniform(0.5, 0.999), 3) for _ in range(size)]
+            elif k == "c":
+                vals = [rng.choice([0.5, 0.9, 0.95, 0.1, 0.75, 0.99]) if rng.random() < 0.7 else round(rng.uniform(0.03, 0.99), 2) for _ in range(size)]
+            else:
+                vals = [rng.randint(2, 12) if rng.random() < 0.5 else rng.randint(2, 400) if rng.random() < 0.8 else int(10 ** rng.uniform(2.5, 6)) for _ in range(size)]
+            arrs.append(np.array(vals, dtype=float if k != "n" else np.int64).reshape(sh))
+        out.append(tuple(arrs))
+    return out
+
+
+class _NormRecorder:
+    """stands in for `stats.norm` during one call and records the (argument, value) pairs of cdf/ppf, so that the Lean
+    model is given exactly the kernel values the implementation used"""
+
+    def __init__(self, real):
+        self._real = real
+        self.cdf_log, self.ppf_log = [], []
+
+    def cdf(self, x):
+        v = self._real.cdf(x)
+        self.cdf_log.append((np.array(x, dtype=float).ravel(), np.array(v, dtype=float).ravel()))
+        return v
+
+    def ppf(self, x):
+        v = self._real.ppf(x)
+        self.ppf_log.append((np.array(x, dtype=float).ravel(), np.array(v, dtype=float).ravel()))
+        return v
+
+
+def _with_recorder(stats, fn):
+    real = stats.norm
+    rec = _NormRecorder(real)
+    stats.norm = rec
+    try:
+        with warnings.catch_warnings():
+            warnings.simplefilter("ignore")
+            try:
+                res = fn()
+            except Exception as e:  # noqa: BLE001
+                res = _classify_exc(e)
+    finally:
+        stats.norm = real
+    return res, rec
+
+
+def _tab_entries(rec):
+    ent = []
+    for xs, vs in rec.ppf_log:
+        ent += ["P:%s=%s" % (_bits(x), _bits(v)) for x, v in zip(xs, vs)]
+    for xs, vs in rec.cdf_log:
+        ent += ["C:%s=%s" % (_bits(x), _bits(v)) for x, v in zip(xs, vs)]
+    return ent
+
+
+def _parse_farr(txt):
+    dims, _, vals = txt.partition(":")
+    shape = tuple(int(d) for d in dims.split(",") if d)
+    return np.array([_unbits(v) for v in vals.split(",") if v], dtype=float).reshape(shape)
+
+
+def _corr_kapi(ctx, stats, drv_lines):
+    """streams `ksingle-array`, `kdouble-array`, `getr-loop`: the array entry points and the whole Newton loop"""
+    from scipy.stats import norm, nct, chi2
+
+    rng = ctx.rng
+    grids = _kf_grid(ctx, ctx.pick(160, 700))
+    req, meta = [], []
+    fb = lambda x: _bits(np.float64(x))
+    for p, c, n in grids:
+        nf = n.astype(float)
+        tol = rng.choice([1e-12, 1e-12, 1e-12, 1e-9, 1e-6, 1e-3, 1e-14])
+        try:
+            bp, bc, bn = np.broadcast_arrays(p, c, nf)
+        except ValueError:
+            bp = bc = bn = None
+        args = [_pack(rng, p, "f"), _pack(rng, c, "f"), _pack(rng, n, "i")]
+        held = [(v, v.copy()) for v in args if isinstance(v, np.ndarray)]
+        inp = {"p": p.tolist(), "c": c.tolist(), "n": n.tolist(), "shapes": [list(p.shape), list(c.shape), list(n.shape)]}
+        with warnings.catch_warnings():
+            warnings.simplefilter("ignore")
+            # ---- ksingle
+            tab = []
+            if bp is not None:
+                for pp, cc, nn in zip(bp.ravel(), bc.ravel(), bn.ravel()):
+                    zp = norm.ppf(pp)
+                    nc = np.sqrt(nn) * zp
+                    tab.append("P:%s=%s" % (fb(pp), fb(zp)))
+                    tab.append("T:%s,%s,%s=%s" % (fb(cc), fb(nn - 1), fb(nc), fb(nct.ppf(cc, nn - 1, nc))))
+            req.append("ksa p=%s c=%s n=%s %s" % (_nd_str(p, fb), _nd_str(c, fb), _nd_str(nf, fb), " ".join(sorted(set(tab)))))
+            try:
+                res = stats.ksingle(*args)
+            except Exception as e:  # noqa: BLE001
+                res = _classify_exc(e)
+            meta.append(("ksingle-array", inp, res, None, held))
+            # ---- kdouble (kernel values recorded from the implementation's own calls)
+            res, rec = _with_recorder(stats, lambda: stats.kdouble(args[0], args[1], args[2], tol))
+            tab = _tab_entries(rec)
+            if bp is not None:
+                for cc, nn in zip(bc.ravel(), bn.ravel()):
+                    tab.append("X:%s,%s=%s" % (fb(1 - cc), fb(nn - 1), fb(chi2.ppf(1 - cc, nn - 1))))
+            req.append("kda %s p=%s c=%s n=%s %s" % (fb(tol), _nd_str(p, fb), _nd_str(c, fb), _nd_str(nf, fb), " ".join(dict.fromkeys(tab))))
+            meta.append(("kdouble-array", dict(inp, tol=tol), res, len(rec.cdf_log) // 2, held))
+            # ---- _getr on the (n, prob) grid
+            getr = getattr(stats, "_getr", None)
+            if getr is None:
+                res, rec = "err missing _getr", _NormRecorder(norm)
+            else:
+                res, rec = _with_recorder(stats, lambda: getr(n, p, tol))
+            req.append("gra %s n=%s prob=%s %s" % (fb(tol), _nd_str(nf, fb), _nd_str(p, fb), " ".join(dict.fromkeys(_tab_entries(rec)))))
+            steps = None
+            if not isinstance(res, str) and rec.cdf_log:
+                # |step| of every pass, from the recorded arguments lhi = sn + rold, llo = sn - rold
+                rolds = [(a[0] - b[0]) / 2 for a, b in zip(rec.cdf_log[0::2], rec.cdf_log[1::2])]
+                rolds.append(np.asarray(res, dtype=float).ravel())
+                steps = [np.max(np.abs(b - a)) if np.size(a) else 0.0 for a, b in zip(rolds[:-1], rolds[1:])]
+            meta.append(("getr-loop", dict(inp, tol=tol), res, (len(rec.cdf_log) // 2, steps, tol), held))
+    rep = drv_lines(req)
+    for (stream, inp, res, aux, held), line in zip(meta, rep):
+        ctx.case((stream, repr(inp)), nontrivial=True, branch="k:" + stream)
+        for v, keep in held:
+            if v.tobytes() != keep.tobytes():
+                ctx.disagree("k-argument-modified", inp, "an argument array was changed by " + stream, "unchanged (arguments_unchanged)")
+                v[...] = keep
+        if line == "shape-error" or isinstance(res, str):
+            if not (line == "shape-error" and res == "err shape-error"):
+                ctx.disagree(stream + "-kind", inp, res if isinstance(res, str) else "a result", line[:80])
+            else:
+                ctx.count("k:shape-error")
+            continue
+        if line == "bad-op":
+            ctx.disagree(stream, inp, "a result", "bad-op")
+            continue
+        loops_m = None
+        if stream != "ksingle-array":
+            lm, _, line = line.partition(" ")
+            loops_m = int(lm)
+        mv = _parse_farr(line)
+        iv = np.asarray(res, dtype=float)
+        if iv.shape != mv.shape:
+            ctx.disagree(stream + "-shape", inp, list(iv.shape), list(mv.shape))
+            continue
+        if mv.ndim >= 2 and mv.size > 1:
+            ctx.count("k:broadcast-2d")
+        if mv.ndim == 0 and not isinstance(res, np.floating):
+            ctx.disagree(stream + "-kind", inp, type(res).__name__, "numpy float scalar")
+        tolv = 1e-12 if stream == "ksingle-array" else 1e-10
+        ok = np.all((np.abs(iv - mv) <= tolv * np.maximum(1.0, np.abs(mv))) | (np.isnan(iv) & np.isnan(mv) & (stream == "ksingle-array")))
+        if not ok:
+            ctx.disagree(stream, inp, iv.tolist(), [x if x == x else "nan (the model asked for a kernel value that the implementation did not use)" for x in mv.ravel().tolist()])
+            continue
+        if stream == "getr-loop":
+            loops_i, steps, tol = aux
+            if loops_m != loops_i:
+                # the stopping test compares |step| with tol: a step within 0.1 % of tol can fall either way in the last bit
+                if steps is not None and any(abs(s - tol) <= 1e-3 * tol + 2e-15 for s in steps):
+                    ctx.skip("Newton step within 0.1% of tol")
+                else:
+                    ctx.disagree("getr-loop-count", inp, loops_i, loops_m)
+            else:
+                ctx.count("k:getr-loops-%s" % ("1" if loops_m <= 1 else "2-3" if loops_m <= 3 else "4+"))
 
 
 # ---------------------------------------------------------------------------------------
